@@ -8,7 +8,7 @@ AREA = "mp4f"
 COQ_TARGETS = ["theories/Props/C10.vo", "theories/Mp4/SanB.vo"]
 REQUIRES = ["From Coq Require Import List NArith ZArith Bool.", "From Coq.Strings Require Import Byte.",
             "From MS Require Import Base.Bytes Base.Outcome Base.Prog Base.ProgSpec Base.BufLevel Mp4.Header Mp4.Box Mp4.San Mp4.SanB "
-            "Mp4.TraceSpec Props.C10.",
+            "Mp4.Spec Mp4.TraceSpec Props.C10.",
             "Import ListNotations.", "Open Scope N_scope."]
 COQCHK = ["MS.Props.C10"]
 THEOREMS = [
@@ -30,6 +30,16 @@ THEOREMS = [
          exists n q, In (OSkip n, q) (trace_of (cursor i1 lenient max_seek) (fun s => s) (sanitize_prog cfg fuel) 0) /\\
                      q <= j < q + covered i1 lenient max_seek (OSkip n) q) ->
       mp4_sanitize cfg lenient max_seek i2 fuel = mp4_sanitize cfg lenient max_seek i1 fuel"""),
+    ("C10_media_noninterference_tiled", """forall (cfg : config) (fuel : nat) (i1 i2 : input) (lenient : bool) (max_seek : N) (bs : list tbox),
+      ilen i1 <= max_seek -> max_seek <= 18446744073709551615 ->
+      (forall t, cumulative_mdat_box_size cfg = Some t -> t <= 4294967295) ->
+      (N.to_nat (ilen i1 / 8) < fuel)%nat ->
+      ilen i1 = ilen i2 ->
+      tiling (cumulative_mdat_box_size cfg) i1 = Some bs ->
+      (forall b j, In b bs -> tb_off b <= j < tb_off b + tb_hlen b -> iget i1 j = iget i2 j) ->
+      (forall b j, In b bs -> is FTYP b || is MOOV b = true -> tb_off b + tb_hlen b <= j < tb_off b + tb_size b ->
+                   iget i1 j = iget i2 j) ->
+      mp4_sanitize cfg lenient max_seek i2 fuel = mp4_sanitize cfg lenient max_seek i1 fuel"""),
     ("C10_metadata_size_bounded", """forall (cfg : config) (fuel : nat) (inp : input) (lenient : bool) (max_seek : N)
                                            (md : bytes) (z : N) (sp : span),
       mp4_sanitize cfg lenient max_seek inp fuel = Ok {| o_metadata := Some (md, z); o_data := sp |} ->
@@ -37,7 +47,7 @@ THEOREMS = [
 ]
 HEAP_A, HEAP_B = 16, 16384     # sampled bound: peak heap <= HEAP_A * max(max_metadata_size, 1024) + HEAP_B
 TRUSTED = [
-    "Coq 8.16.1 kernel (coqc; coqchk in the thorough tier); vm_compute for C10_metadata_size_refuted and the Examples; no native_compute",
+    "Coq 8.16.1 kernel (coqc; coqchk in the thorough tier); vm_compute only in Examples; no native_compute",
     "axioms: none (Print Assumptions = Closed under the global context for every theorem)",
     "hand-written Gallina model of mp4san::sanitize_async_with_config (Mp4/{Header,Box,San}.v) with an allocation event OAlloc n where the "
     "Rust allocates (BytesMut::zeroed(box_data_size) after the limit check; Vec::with_capacity(metadata_len + pad_size)); allocations made "
@@ -63,8 +73,9 @@ RULE = ("meter cases: the unit-test shapes and neighbours through the strict and
         "8-byte children (allocation amplification); size-field pathologies; truncations; moov tree mutations; config lattices. Per case: the "
         "complete inner operation trace (op, offset, requested, returned) compared with the model's Level-B trace; oracle: every inner read "
         "inside the allowed set computed from the top-level tiling, result unchanged after scrambling every media payload byte (second run), "
-        "peak heap within the stated bound, |metadata| <= 2*(limit+1024+64). Non-trivial = at least 40 bytes present; distinct = distinct case line. "
-        "Padding above 2^24 bytes is not generated (the real code would allocate GiBs).")
+        "peak heap within the stated bound, |metadata| <= 2*(limit+1024+64). Four implementation-only cases (moov of 2000 / 8000 eight-byte children) "
+        "sample the heap amplification of the parsed-children vector. Non-trivial = at least 40 bytes present; distinct = distinct case line. "
+        "Gaps above 2^24 bytes before the media are not generated in the quick tier.")
 EXHAUSTIVE = {"quick": False, "thorough": False}
 XCHECK_N = 10
 NOTES = ["WebP half pending: C10_webp_alloc_constant needs the webp programme model; C10_noninterference_generic and the monitor logic "
@@ -120,7 +131,7 @@ def adversarial(rng, tier):
         L = Layout().add(f).add(md).add(box(b"moov", m1[8:], form="eof"), virtual=2**33)
         out.append(case_line("lenient", lim, None, L.total(), L.exts()))
     # amplification: a moov made of many tiny children
-    for nkids in (100, 500, 8000):
+    for nkids in (100, 500):
         kids = b"".join(box(b"abcd", b"") for _ in range(nkids))
         mv = box(b"moov", kids + m1[8:])
         for lim in (len(mv), 2**16, P.DEFAULT_MAX):
@@ -133,7 +144,7 @@ def adversarial(rng, tier):
         out.append(case_line("lenient", 4096, None, L.total(), L.exts()))
         L = Layout().add(f).add(box(b"free", b"", form="64", size=sz), virtual=sz).add(md).add(m1)    # gap too large for padding
         out.append(case_line("strict", 4096, None, L.total(), L.exts()))
-    # paddings of 2^16 / 2^20 (/ 2^24 thorough) bytes at several limits: D6 below the bound
+    # gaps of 2^16 / 2^20 (/ 2^24 thorough) bytes before the media at several limits (the former finding D6: now displaced, not padded)
     for g in (2**16, 2**20) + ((2**24,) if tier == "thorough" else ()):
         for lim in (4096, 2**16, P.DEFAULT_MAX):
             L = Layout().add(f).add(box(b"free", b"", form="64", size=g), virtual=g).add(md).add(m1)
@@ -141,10 +152,22 @@ def adversarial(rng, tier):
     return [to_args(l) for l in out]
 
 
+def amplification():
+    """implementation only (the extracted list-based model needs minutes for a moov of thousands of children): peak heap of
+    a moov payload made of 8-byte children, the worst case for the parsed-children vector"""
+    f = P.F(); m1 = P.simple_moov([(4, [20, 30])]); md = box(b"mdat", b"abcdefg")
+    for nkids in (2000, 8000):
+        mv = box(b"moov", b"".join(box(b"abcd", b"") for _ in range(nkids)) + m1[8:])
+        for lim in (len(mv), 2**20):
+            yield to_args(case_dense("strict", lim, None, f + md + mv))
+
+
 def gen(run):
     rng = run.rng
     quick = run.tier == "quick"
     yield "meter " + d6_witness(), "corpus"
+    for a in amplification():
+        yield "meterx " + a, "amplification-impl-only"
     for lay in P.seed_layouts(rng):
         for rd in ("lenient", "strict"):
             yield "meter " + to_args(case_dense(rd, P.DEFAULT_MAX, None, b"".join(lay))), "seed-layouts"
@@ -170,6 +193,8 @@ def split(obs):
 
 
 def same(line, impl, model):
+    if line.startswith("meterx "):
+        return True           # implementation only
     a, b = split(impl), split(model)
     if a is None or b is None:
         return False
@@ -361,7 +386,7 @@ def search(run, disagreements):
 
 def coq_bool(line, model_out):
     a = split(model_out)
-    if a is None:
+    if a is None or not line.startswith("meter "):
         return None
     rd, mx, cum, ln, exts = line.split()[1:]
     if exts == "-" or len(exts) > 900 or int(ln) > 10**6:
@@ -386,9 +411,10 @@ LEVEL_TEXT = ("MP4 half. Theorems (Coq, every input of any size, every configura
               "the loop-iteration start or such a payload read (C10_reads_confined), every allocation except the output buffer is bounded and "
               "follows the limit check (C10_mp4_alloc_bounded); a generic non-interference theorem by induction on programmes "
               "(C10_noninterference_generic) and its consequence that bytes passed over by a skip never influence the result "
-              "(C10_media_noninterference); the returned metadata size bound is REFUTED (C10_metadata_size_refuted, finding D6: the padding box "
-              "grows with the gap before the media whatever the limit) and proved for everything but the zero filling of the padding box "
-              "(C10_metadata_nonpad_bounded). Correspondence: the complete inner operation trace below the 32-byte BufReader (operation, offset, "
+              "(C10_media_noninterference) and, through the specification's tiling, that the result depends only on box headers and ftyp/moov "
+              "payloads (C10_media_noninterference_tiled); the returned metadata, padding included, is at most 2*(max_metadata_size+1024+64) bytes and so is the "
+              "allocation of the output buffer (C10_metadata_size_bounded; this was finding D6 - the padding box grew with the gap before the media "
+              "whatever the limit - refuted first, then repaired in /repo by 3c176e3 and proved of the repaired code). Correspondence: the complete inner operation trace below the 32-byte BufReader (operation, offset, "
               "requested, returned) of the real sanitizer equals the model's Level-B trace on every generated case; oracle: reads inside the "
               "allowed set computed from the box tiling, result unchanged after scrambling media bytes, sampled peak heap and |metadata| within "
               "the stated bounds. Statements about every offset of every input of any size (multi-GiB sparse streams included) are what a proof "
@@ -398,9 +424,11 @@ LEVEL_NOTE = ("WebP half PENDING (no webp programme model yet). Modelled and pro
               "harness; bound peak <= %d*max(limit,1024)+%d bytes stated in the evidence; the Vec of parsed children, error reports and the "
               "allocator's own overhead are not in the model). The 32-byte look-ahead of the BufReader is in the Level-B model, which is compared "
               "with the implementation trace exactly but has no refinement theorem of its own (C15 proves that for the adapter models of "
-              "Base/Adapters.v). C10_media_noninterference is stated through the trace (bytes passed over by a skip), not yet through "
-              "Spec.tiling. Known finding D6 (metadata not bounded by the limit) is reported as KNOWN-FINDING / VIOLATION on every run. "
-              "No axioms." % (HEAP_A, HEAP_B))
+              "Base/Adapters.v). C10_media_noninterference is stated through the trace (bytes passed over by a skip, all inputs) and, for inputs "
+              "that are a sequence of complete boxes and enough fuel, through Spec.tiling (C10_media_noninterference_tiled, using the loop "
+              "lemma of Mp4/LoopProofs.v). Finding D6 (metadata not bounded by the limit) is fixed (3c176e3); its classifier stays in known_class and its former "
+              "witness is the first corpus case. Observation (no violation): a moov made of 8-byte children costs about 11-12 bytes of heap per "
+              "payload byte (the vector of parsed children), which is what the constant 16 in the sampled heap bound absorbs. No axioms." % (HEAP_A, HEAP_B))
 TECHNIQUE = ("Coq: programme logic with a monitor (state machine over operations) + invariant on the ideal cursor + generic non-interference by "
              "induction on the free-monad programme; exact inner-trace differential check against the real sanitizer under a metering reader and a "
              "counting allocator")
